@@ -153,7 +153,7 @@ def gen_cases(rng, tier):
         out.append(gen_history(rng, feats))
     for n_rows, cycles in ([(5, 10), (40, 12)] if tier == "quick" else [(5, 10), (40, 12), (200, 20), (3, 40)]):
         out.append(gen_cycles(rng, n_rows, cycles))
-    return out
+    return [G.tag_key_reuse(c) for c in out]
 
 
 class C13(Spec):
